@@ -582,7 +582,16 @@ func (tdsChan *Channel) QueuePackage(ctx context.Context, pkg Package) error {
 	}
 	tdsChan.lastPkgTx = pkg
 
-	return tdsChan.sendPackets(ctx, true)
+	if err := tdsChan.sendPackets(ctx, true); err != nil {
+		// The message cannot be completed. Do not leave the package
+		// queued - the caller was told that it failed, it would be sent
+		// as part of the next message.
+		tdsChan.queueTx.Reset()
+		tdsChan.lastPkgTx = nil
+		return err
+	}
+
+	return nil
 }
 
 // Send all remaining Packets in queue to the server.
